@@ -113,7 +113,7 @@ pub fn alphabet(quick: bool, huge: bool) -> Vec<String> {
     ];
     if !quick {
         v.extend([
-            "Ctx8", "Pubkey", "u2", "u4", "u16", "u32", "u64", "u128", "unwrap_right", "eq_8", "verify", "2", "3", "4", "65536", "4294967296", "9223372036854775808", "18446744073709551615", "18446744073709551616", "1000000000000000000000000000000",
+            "Ctx8", "Pubkey", "u2", "u4", "u16", "u32", "u64", "u128", "unwrap_right", "eq_8", "verify", "2", "3", "4", "65536",
             "\"", "\\", "'", "#", "@", "$", "%", "&", "*", "+", "-", "/", ".", "?", "|", "~", "^", "\u{0}", "\u{feff}", "\u{202e}",
         ]);
     }
@@ -132,7 +132,9 @@ pub fn alphabet(quick: bool, huge: bool) -> Vec<String> {
             out.push(s.to_string());
         }
         if !quick {
-            for s in ["1048576", "16777216"] {
+            // every number >= 2^20 is "huge": as an array size / list bound it makes the library materialise that many
+            // elements (D6), so these tokens are only ever used inside C06's isolated, memory-limited workers
+            for s in ["1048576", "16777216", "4294967296", "9223372036854775808", "18446744073709551615", "18446744073709551616", "1000000000000000000000000000000"] {
                 out.push(s.to_string());
             }
         }
